@@ -491,8 +491,11 @@ def run(ctx):
         if tag:
             inp['class'] = tag
         bound = split_bound(sp, flat)
+        # the flatness as an exact rational (same value): the unchanged code only compares and multiplies it
+        flat_arg = F(flat) if ci % 3 == 0 else flat
+        inp['flat_type'] = type(flat_arg).__name__
         try:
-            objs, res = run_real(pu, sp, flat, len(sp) + bound + 4, ptype)
+            objs, res = run_real(pu, sp, flat_arg, len(sp) + bound + 4, ptype)
         except TooMany:
             ctx.count((str(sp), flat), 'nonterminating', True)
             ctx.violate('subdivision does not terminate within the proven bound on the number of pieces', inp,
